@@ -5,6 +5,7 @@ package formatter
 import (
 	"github.com/shopspring/decimal"
 
+	"github.com/juev/hledger-lsp/internal/ast"
 	"github.com/juev/hledger-lsp/internal/parser"
 	"github.com/juev/hledger-lsp/internal/zzverif"
 )
@@ -34,7 +35,10 @@ func verifC04Number(maxI, maxF, maxPlaces int) {
 
 	sample, dm, sep, places := c04SymFormat(maxPlaces)
 	format := ParseNumberFormat(sample)
-	out := FormatNumber(qty, format)
+	// through the function the formatter itself uses for a posting amount (it decides whether the
+	// display format is applied at all), not through the FormatNumber helper alone
+	amt := ast.Amount{Quantity: qty, RawQuantity: src, Commodity: ast.Commodity{Symbol: "USD"}}
+	out := formatAmountQuantity(&amt, map[string]NumberFormat{"USD": format})
 	zzverif.Observe("out", out)
 
 	// class predicates (over the inputs)
